@@ -78,8 +78,10 @@ UcvOK ==
       t2 == TypeOfName(Ev.t2)
       f(DD) == M_typecommonreal(t1, Ev.w1, t2, Ev.w2, targ, DD).t
   IN /\ IsArithName(Ev.t1) /\ IsArithName(Ev.t2) /\ Known(Ev.t1) /\ Known(Ev.t2)
-     /\ Ev.res = TName(f(Devs))
-     /\ (f(Devs) = f({})) => Ev.res = TName(UAC(t1, Ev.w1, t2, Ev.w2, targ))
+     \* the answer C11 requires is always accepted; the answer of the shipped code only where a named deviation fires
+     /\ \/ Ev.res = TName(UAC(t1, Ev.w1, t2, Ev.w2, targ))
+        \/ (f(Devs) # f({}) /\ Ev.res = TName(f(Devs)))
+     /\ f({}) = UAC(t1, Ev.w1, t2, Ev.w2, targ)
 Ucv == IsEvent("ucv") /\ UcvOK /\ UNCHANGED targ /\ Adv
 
 BinOK ==
@@ -92,8 +94,8 @@ BinOK ==
       y == D(rt, Ev.rw, eqp /\ IsArithName(Ev.rt))
       f(DD) == M_mkbinaryexpr(g, x, y, targ, DD).t
   IN /\ g # "none" /\ Known(Ev.lt) /\ Known(Ev.rt)
-     /\ Ev.res = TName(f(Devs))
-     /\ (f(Devs) = f({})) => Ev.res = TName(TypeOfBinary(Ev.op, x, y, targ))
+     /\ \/ Ev.res = TName(TypeOfBinary(Ev.op, x, y, targ))
+        \/ (f(Devs) # f({}) /\ Ev.res = TName(f(Devs)))
 Bin == IsEvent("bin") /\ BinOK /\ UNCHANGED targ /\ Adv
 
 CondOK ==
@@ -104,8 +106,8 @@ CondOK ==
       \* two operands logged with the same enum name may be the same enum type or two enum types with the same base
       y2 == IF IsEnumName(Ev.rt) /\ Ev.lt = Ev.rt THEN D(En(EnumTwin(rt.tag)), 0, FALSE) ELSE y
       f(DD, yy) == M_condexpr(x, yy, targ, DD).t
-      ok(yy) == /\ Ev.res = TName(f(Devs, yy))
-                /\ (f(Devs, yy) = f({}, yy)) => Ev.res = TName(TypeOfCond(x, yy, targ))
+      ok(yy) == \/ Ev.res = TName(TypeOfCond(x, yy, targ))
+                \/ (f(Devs, yy) # f({}, yy) /\ Ev.res = TName(f(Devs, yy)))
   IN /\ Known(Ev.lt) /\ Known(Ev.rt)
      /\ ok(y) \/ ok(y2)
 Cond == IsEvent("cond") /\ CondOK /\ UNCHANGED targ /\ Adv
